@@ -136,6 +136,13 @@ impl KBucket {
     }
 
     fn add_node(&mut self, node: NodeInfo) -> Result<()> {
+        // A peer is listed at most once: a repeated add refreshes the existing entry
+        // (and moves it to the most-recently-seen end) instead of duplicating it.
+        if let Some(pos) = self.nodes.iter().position(|n| n.id == node.id) {
+            self.nodes.remove(pos);
+            self.nodes.push(node);
+            return Ok(());
+        }
         if self.nodes.len() < self.max_size {
             self.nodes.push(node);
             Ok(())
@@ -179,6 +186,10 @@ impl KademliaRoutingTable {
     }
 
     fn add_node(&mut self, node: NodeInfo) -> Result<()> {
+        // The routing table never lists the local node itself.
+        if node.id == self.node_id {
+            return Ok(());
+        }
         let bucket_index = self.get_bucket_index(&node.id);
         self.buckets[bucket_index].add_node(node)
     }
